@@ -2014,8 +2014,8 @@ def predict(forms, pos, line_offset=0):
         hazards += ("far-upvalue",)
     # keys_odd (odd number of key/value arguments) was a hazard until /repo commit f286ca6 fixed it;
     # such calls are now ordinary cases
-    if m.far_error:
-        hazards += ("far-error-operand",)
+    # far_error ((error v) in a function with > 240 locals) was a hazard until /repo commits 76f7bf9 and
+    # 716c04b fixed it; such cases are now ordinary cases
     if m.far_rest:
         hazards += ("far-rest-destructure",)
     if m.iflet_else:
